@@ -30,7 +30,7 @@ func RunAndCompare(c *core.Ctx, progs []M, cfg string, batch int) error {
 func RunAndCompareCfg(c *core.Ctx, progs []M, cfg string, batch int, rcfg *elkrun.Cfg) error {
 	emitBatches(progs, batch)
 	t0 := time.Now()
-	mr, err := Predict(c, progs, cfg, MaxSteps, 10*time.Minute)
+	mr, err := Predict(c, progs, cfg, MaxSteps, 25*time.Minute)
 	if err != nil {
 		return err
 	}
